@@ -18,6 +18,7 @@
 #include "muduo/net/Buffer.h"
 #include "muduo/net/InetAddress.h"
 
+#include <atomic>
 #include <memory>
 
 #include <boost/any.hpp>
@@ -133,7 +134,7 @@ class TcpConnection : noncopyable,
 
   EventLoop* loop_;
   const string name_;
-  StateE state_;  // FIXME: use atomic variable
+  std::atomic<StateE> state_;  // read by send()/shutdown()/forceClose() on any thread
   bool reading_;
   // we don't expose those classes to client.
   std::unique_ptr<Socket> socket_;
